@@ -205,6 +205,9 @@ A_C09_Replaceable ==
         /\ \A x \in store \ store' : SameAddr(x, i) /\ Ev(x).ts <= Ev(i).ts   \* same address only, never a newer one
         /\ Older(store, i) \cap store' = {}                                    \* every older version goes
         /\ (~IsReplaceable(Ev(i)) => store \subseteq store')                   \* regular events remove nothing
+        \* "never removes the newest version of any address", the incoming one included: afterwards the address holds
+        \* the event itself or a version that is not older
+        /\ (IsReplaceable(Ev(i)) => (i \in store' \/ NotOlder(store', i) # {}))
 
 \* C17: a collection removes exactly the ephemeral and the expired
 A_C17_GcExact ==
